@@ -2,6 +2,7 @@ import Sm9.Proofs.MontBasic
 import Sm9.Proofs.MontMul
 import Sm9.Proofs.MontInvert
 import Sm9.Proofs.Conversions
+import Sm9.Proofs.MontSop
 import Sm9.Proofs.Consts
 import Sm9.Proofs.FqField
 import Sm9.Model.Api
@@ -15,8 +16,9 @@ Montgomery form through a reducing multiplication).  On canonical limbs the deri
 injective on [0, m).  `inverse` terminates (within the model's fuel) with a canonical result on
 every canonical non-zero input; every constructor (`new`, strict / reducing `from_slice`,
 `interpret`, `from_hash`, `random` for arbitrary RNG output, `set_bit` for every index) yields a
-canonical value.  Missing: `sum_of_products` at limb level (in progress, C12); histories are
-decided by register-machine programs on the real crate.
+canonical value, and so does the interleaved `sum_of_products` behind every Fq2/Fq4 product.
+Histories (any order of public calls) are additionally exercised by register-machine programs
+on the real crate.
 -/
 set_option maxRecDepth 100000
 namespace Sm9.C07
@@ -69,6 +71,11 @@ theorem from_hash_canon (ha : List UInt8) (h : ha.length ≤ 64) :
     ∃ y, FrL.from_hash ha = .ok (some y) ∧ Canon Consts.FR y := by
   obtain ⟨y, h1, h2, _⟩ := FrL.from_hash_spec ha h
   exact ⟨y, h1, h2⟩
+theorem sum_of_products_canon (as bs : List Nat) (hlen : as.length = bs.length) (h4 : as.length ≤ 4)
+    (ha : ∀ a ∈ as, Canon Consts.FQ a) (hb : ∀ b ∈ bs, Canon Consts.FQ b) :
+    ∃ res, FqL.sum_of_products as bs = some res ∧ Canon Consts.FQ res := by
+  obtain ⟨res, h1, h2, _⟩ := FqL.sum_of_products_refines as bs hlen h4 ha hb
+  exact ⟨res, h1, h2⟩
 /-- on canonical limbs, equal values (x·R mod m) force equal limbs: `==` on raw limbs is value equality -/
 theorem eq_iff_value {P : MontParams} (hP : P.Ok) {a b : Nat} (ha : Canon P.modulus a) (hb : Canon P.modulus b)
     (h : (a * W256) % P.modulus = (b * W256) % P.modulus) : a = b := Fp.eq_of_mul_W256 hP ha hb h
